@@ -15,7 +15,16 @@
    sndp <fuel> <i> <pline>... -> as snd
    chkc <fuel> <line>...   -> as chk, for check_c; a line word that starts with C is inside a conditional section
    alone <cwdhex> <pkgdirhex> <fragdirhex> <fragbasehex> <dirhex>=<spelledhex>... -> "1" | "0"  (analysed_alone)
-   samed <cwdhex> <phex> <qhex> -> "1" | "0" (same_denotation) *)
+   samed <cwdhex> <phex> <qhex> -> "1" | "0" (same_denotation)
+   d-programs (makefiles with directives): a line word is <file>:<lineno>:<infra 0|1>:<body> with body
+        a|s|e|p|d:<varhex>:<chunks>   assignment          c  comment/empty      n  .include
+        u:<varhex,...>  .undef        i:<neg 0|1>:<D<varhex>|E<varhex>|T|F>  .if [!]defined/empty/1/0
+        l  .else    f  .endif    r:<n>:<usedhex,...|->  .for with n items    o  .endfor
+   chkf <fuel> <dline>... -> "panic" | "ok g<guard index|-> <flagged>:<because>:<R|N|O>:<S|U>:<changed|->..."  (check_file)
+   chkk <fuel> <dline>... -> the same for check_pkg
+   sndd <fuel> <i,j,..> <dline>... -> "S" | "U:<varhex>,..." (the lines i,j,.. removed; Spec/MakeEvalDir)
+   find <fuel> <dline>... -> "<varhex>=<valuehex|!>" ... (final values by Spec/MakeEvalDir)
+   incs <i> <dline>... -> "1" | "0" (in_conditional_section (find_guard p) (firstn i p)) *)
 let parse_chunks (s : string) : chunk list =
   if s = "-" then [] else
   List.map (fun c ->
@@ -45,6 +54,25 @@ let parse_pline (w : string) : pline =
     { pl_path = bytes_of_hex (String.sub f 1 (String.length f - 1)); pl_lineno = n_of_int (int_of_string n);
       pl_body = Some { a_var = bytes_of_hex v; a_op = parse_op o; a_val = parse_chunks cs } }
   | _ -> failwith "bad pline"
+let parse_names (s : string) =
+  if s = "-" || s = "" then [] else List.map bytes_of_hex (String.split_on_char ',' s)
+let parse_dline (w : string) : dline =
+  match String.split_on_char ':' w with
+  | f :: n :: infra :: body ->
+    let b = match body with
+      | ["c"] -> DComment | ["n"] -> DInclude | ["l"] -> DElse | ["f"] -> DEndif | ["o"] -> DEndfor
+      | ["u"; xs] -> DUndef (parse_names xs)
+      | ["i"; neg; c] ->
+        let c' = match c.[0] with
+          | 'D' -> DCDefined (bytes_of_hex (String.sub c 1 (String.length c - 1)))
+          | 'E' -> DCEmpty (bytes_of_hex (String.sub c 1 (String.length c - 1)))
+          | 'T' -> DCConst true | 'F' -> DCConst false | _ -> failwith "bad cond" in
+        DIf (neg = "1", c')
+      | ["r"; n; used] -> DFor (parse_names used, nat_of_int (int_of_string n))
+      | [o; v; cs] -> DAssign { a_var = bytes_of_hex v; a_op = parse_op o; a_val = parse_chunks cs }
+      | _ -> failwith "bad dline body" in
+    { dl_file = n_of_int (int_of_string f); dl_lineno = n_of_int (int_of_string n); dl_infra = (infra = "1"); dl_body = b }
+  | _ -> failwith "bad dline"
 let kind_letter k = match k with KRedundant -> "R" | KNoEffect -> "N" | KOverwritten -> "O"
 let uniq l = List.sort_uniq compare l
 let handle (args : string list) : string =
@@ -96,5 +124,35 @@ let handle (args : string list) : string =
     String.concat " " (List.map (fun x ->
         hex_of_bytes x ^ "=" ^ (match final fuel sp x with None -> "!" | Some v -> hex_of_bytes v))
         (uniq (vars_of p)))
+  | ("chkf" | "chkk") :: fuel :: ls ->
+    let fuel = nat_of_int (int_of_string fuel) in
+    let p = List.map parse_dline ls in
+    (match (if List.hd args = "chkf" then check_file p else check_pkg p) with
+     | Panic -> "panic"
+     | OutOfFuel -> "outoffuel"
+     | Ok vs ->
+       let one vd =
+         let ch = uniq (changed_vars_d fuel p [vd.vd_flagged]) in
+         Printf.sprintf "%d:%d:%s:%s:%s" (int_of_nat vd.vd_flagged) (int_of_nat vd.vd_because) (kind_letter vd.vd_kind)
+           (if ch = [] then "S" else "U")
+           (if ch = [] then "-" else String.concat "," (List.map hex_of_bytes ch)) in
+       let g = match find_guard p with Some i -> string_of_int (int_of_nat i) | None -> "-" in
+       String.concat " " (("ok g" ^ g) :: List.map one vs))
+  | "sndd" :: fuel :: is :: ls ->
+    let fuel = nat_of_int (int_of_string fuel) in
+    let is = List.map (fun i -> nat_of_int (int_of_string i)) (String.split_on_char ',' is) in
+    let ch = uniq (changed_vars_d fuel (List.map parse_dline ls) is) in
+    if ch = [] then "S" else "U:" ^ String.concat "," (List.map hex_of_bytes ch)
+  | "find" :: fuel :: ls ->
+    let fuel = nat_of_int (int_of_string fuel) in
+    let p = List.map parse_dline ls in
+    let sp = to_spec_d p in
+    String.concat " " (List.map (fun x ->
+        hex_of_bytes x ^ "=" ^ (match final_d fuel sp x with None -> "!" | Some v -> hex_of_bytes v))
+        (uniq (vars_of_d p)))
+  | "incs" :: i :: ls ->
+    let p = List.map parse_dline ls in
+    let rec firstn n l = if n = 0 then [] else match l with [] -> [] | x :: r -> x :: firstn (n - 1) r in
+    if in_conditional_section (find_guard p) (firstn (int_of_string i) p) then "1" else "0"
   | _ -> "ERR:bad request"
 let () = serve handle
